@@ -255,7 +255,22 @@ def lemma_serves(mod, fn):
     return L_SERVES_FN.get('%s.%s' % (mod, fn)) or THEOREM_SERVES.get(fn) or L_SERVES.get(mod, [])
 
 
-THEOREM_SERVES = {}
+THEOREM_SERVES = {
+    'reach_n': [], 'lemma_reach_prot': ['C01', 'C05', 'C14'],
+    'theorem_c01_reachable_is_alive': ['C01', 'C14', 'C11'],
+    'theorem_values_untouched_by_sweep': ['C01', 'C17'], 'theorem_values_untouched_by_marking': ['C01', 'C17'],
+    'theorem_c03_mutator_side_reclaims_nothing': ['C03'],
+    'theorem_c05_weak_target_allocated': ['C05'], 'theorem_c05_upgrade_succeeds_for_reachable': ['C05'],
+    'theorem_c05_upgraded_pointer_is_protected': ['C05'], 'lemma_stack_change': ['C01', 'C05', 'C06'],
+    'ghost_read_edge': ['C01'], 'ghost_adopt': ['C01', 'C06', 'C14'], 'ghost_write_root': ['C01', 'C06'], 'ghost_remove_edge': ['C01', 'C02'],
+    'ghost_callback_end': ['C01', 'C03'],
+    'theorem_c06_parent_only_barrier_is_stable': ['C06'], 'theorem_c06_parent_only_barrier_stable_under_requeue': ['C06'],
+    'theorem_c06_child_only_barrier_is_stable': ['C06'], 'theorem_c06_child_only_barrier_stable_under_requeue': ['C06'],
+    'lemma_marked_reach': ['C07', 'C02'], 'theorem_c07_reachable_is_not_dead': ['C07'], 'theorem_c07_resurrect_reports_marking': ['C07'],
+    'theorem_c07_marked_closure_is_marked': ['C07', 'C02'],
+    'witness_sleep_empty': ['C01', 'C02', 'C04', 'C05', 'C06', 'C07'], 'witness_mark_two_objects': ['C01', 'C02', 'C05', 'C06', 'C07'],
+    'witness_sweep_two_objects': ['C01', 'C02', 'C04', 'C05'], 'lemma_counts_empty': [],
+}
 
 # =====================================================================================================================
 # Layer K rows.  harness = fn name in kani/<file>_verif.rs;  complete = True, or a string stating the bound.
